@@ -7,6 +7,7 @@ regex rules, loop invariants by loop ordinal); each is counted and reported.
 Directive grammar (each on its own line, inside the template):
   //@extract id=<id> file=<path under /repo> item="<fn NAME | struct NAME | enum NAME | const NAME | type NAME>"
              [within="<impl header prefix>"] [props=C01+C03] [closure="<regex>"] [after="<regex>": the item following its first match]
+             [optional=1: if the item does not exist the block is skipped instead of being a lost anchor]
              (closure=: lift the block closure that follows the regex inside that fn; //@sig names what it captures)
   //@expect <original signature, whitespace-normalised, up to the body>   (lost anchor if different)
   //@sig <replacement signature>                                          (rules X1/X3/X4/X6/X7)
@@ -247,6 +248,7 @@ def strip_attrs(text):
 
 def generate(unit):
     """Fill the template of `unit` from /repo. Returns dict(text, functions, rules, labels...)."""
+    skipped_optional = []
     tpath = os.path.join(VERUS_DIR, unit, "unit.rs")
     tmpl = read(tpath).split("\n")
     # unit-wide world-threading rules: `//@@default-rule <ID> s/../../` lines apply (any number
@@ -317,7 +319,16 @@ def generate(unit):
             t = read(path)
             cache[path] = (t, rscan.code_mask(t))
         src, mask = cache[path]
-        item_start, sig_start, b, end = locate_item(src, mask, kv["item"], kv.get("within"), kv.get("after"))
+        try:
+            item_start, sig_start, b, end = locate_item(src, mask, kv["item"], kv.get("within"), kv.get("after"))
+        except Undecided:
+            if kv.get("optional"):
+                # `optional=1`: an item the code may legitimately do without (a named constant it may inline);
+                # its obligations are then not generated (the property goes undecided unless something else
+                # in the unit is refuted - a refutation wins)
+                skipped_optional.append(kv.get("id"))
+                continue
+            raise
         kind = kv["item"].split()[0]
         if kv.get("closure"):
             # closure lifting: the block of the closure that follows /closure-regex/ inside the located fn
